@@ -21,7 +21,7 @@ def run(prop, path):
         os.makedirs(os.path.join(root, "scripts"))
         os.makedirs(os.path.join(root, ".cargo"))
         rt = os.path.join(os.path.dirname(os.path.dirname(os.path.abspath(__file__))), "harness", "rt")
-        open(os.path.join(root, "Cargo.toml"), "w").write(corpus_rt.CARGO_TOML % {"rt": rt, "repo": REPO})
+        open(os.path.join(root, "Cargo.toml"), "w").write(corpus_rt.CARGO_TOML % {"rt": rt, "repo": REPO, "edition": r.get("edition", "2021")})
         shutil.copy(os.path.join(REPO, "Cargo.lock"), os.path.join(root, "Cargo.lock"))
         open(os.path.join(root, ".cargo", "config.toml"), "w").write("[net]\noffline = true\n")
         src = ["#![allow(warnings)]"] + r["rust"].split("\n")
